@@ -28,6 +28,7 @@ trait MultiApi: Send + Sync {
     fn create(&self) -> (Box<dyn PollS>, u32);
     fn running(&self) -> u32;
     fn buffer(&self) -> usize;
+    fn cancel(&self, id: u32);
 }
 struct W<C: 'static>(&'static Arc<C>);
 struct S<St>(St);
@@ -39,6 +40,7 @@ macro_rules! multi_impl {
             fn create(&self) -> (Box<dyn PollS>, u32) { let (s, id) = self.0.create_stream_for_new_events(); (Box::new(S(s)), id) }
             fn running(&self) -> u32 { self.0.running_streams_count() }
             fn buffer(&self) -> usize { $n }
+            fn cancel(&self, id: u32) { self.0.verif_streams_manager().cancel_stream(id) }
         }
         impl PollS for S<reactive_mutiny::mutiny_stream::MutinyStream<'static, u32, $ty, $item>> {
             fn poll(&mut self) -> Option<Got> {
@@ -138,7 +140,17 @@ fn run_one(kind: &str, sub: &str, seed: u64, replay: Option<Vec<u8>>) -> (sched:
                     0 | 1 => if live.len() < mx { let li = do_create(ctx, &*ch, &sh, 0); live.push(li); buffered.insert(li, ch.buffer()); /* unknown leftovers of a previous owner of the id */ },
                     2 | 3 | 4 => if live.iter().all(|li| buffered[li] + 1 < ch.buffer()) { next_v += 1; do_send(ctx, &*ch, &sh, 0, next_v); for li in &live { *buffered.get_mut(li).unwrap() += 1; } },
                     5 | 6 => if !live.is_empty() { let li = live[hrng.below(live.len() as u64) as usize]; let mut emptied = false; for _ in 0..hrng.range(1, 9) { if !do_poll(ctx, &sh, 0, li) { emptied = true; break } } let b = buffered.get_mut(&li).unwrap(); if emptied { *b = 0 } else if *b > 0 && *b < ch.buffer() { *b -= 1 } },
-                    _ => if !live.is_empty() { let k = hrng.below(live.len() as u64) as usize; let li = live.remove(k); do_drop(ctx, &sh, 0, li); },
+                    _ => if !live.is_empty() {
+                        let k = hrng.below(live.len() as u64) as usize; let li = live.remove(k);
+                        // sometimes the listener is first told to end (and possibly polled a little more) before it is dropped
+                        if hrng.chance(1, 3) {
+                            let sid = sh.lock().unwrap().listeners[li].sid;
+                            ctx.call(0, &format!("cancel {sid}"));
+                            ctx.quiet(|| ch.cancel(sid));
+                            if hrng.chance(1, 2) { do_poll(ctx, &sh, 0, li); }
+                        }
+                        do_drop(ctx, &sh, 0, li);
+                    },
                 }
                 // keep the pools from filling up: handles are released as soon as they are received
                 let hs: Vec<_> = std::mem::take(&mut sh.lock().unwrap().handles);
